@@ -113,7 +113,7 @@ def malformed(rnd, n):
             q = rnd.choice([b'*', b'+', b'?', b'{2}'])
             t, c = rnd.choice([q + v, b'(' + q + v + b')', v + b'|' + q + w, q]), 'leading quantifier'
         else:
-            b = bytes([rnd.choice([0, 1, 9, 10, 13, 27, 31, 127, 128, 200, 255])])
+            b = bytes([rnd.choice([0, 1, 9, 10, 13, 27, 31, 127, 128, 200, 255]) if rnd.random() < 0.3 else rnd.choice([x for x in range(256) if x < 32 or x >= 127])])      # every non-printable value (a byte that equals a meta character modulo 128 is still a raw byte)
             i = rnd.randrange(len(v) + 1)
             t, c = v[:i] + b + v[i:], 'raw non-printable byte'
             # inside an escape the byte may be legal (\<byte> is not: escaped char must be printable) - keep it only if the reference rejects
